@@ -2,7 +2,7 @@
 import ast
 
 from sa.program import src, own_nodes, call_name, parent, kwarg, AnchorMissing, enclosing_function
-from sa import guards, affine
+from sa import guards, affine, resolve
 
 EXPLANATION = (
     "Static rules over pyiga/bspline.py, bspline_cy.pyx and spline.py: (R19.1) the array handed to KnotVector by make_knots has a "
@@ -312,8 +312,8 @@ def r19_4(ctx):
     ctx.floor('R19.4', 'returns of greville', len(rets), 2)
     for r in rets:
         facts = guards.dominating_facts(r)
-        p0 = guards.has_literal(facts, 'p == 0', True)
-        v = r.value
+        p0 = guards.has_literal(facts, 'p == 0', True) or guards.has_literal(facts, 'self.p == 0', True)
+        v = resolve.expand(r.value, r, keep=('g', 'p'))        # read through local temporaries (knots = self.kv)
         if p0:
             ok = src(v).replace(' ', '') == '(self.kv[1:]+self.kv[:-1])/2'
             ctx.decide('R19.4', f.qual, src(r), ok or None, r, 'degree 0: span midpoints lie inside the domain')
@@ -323,7 +323,7 @@ def r19_4(ctx):
             ctx.decide('R19.4', f.qual, src(r), ok, r, 'Greville points leave through a clamp to [kv[0], kv[-1]]')
     g = [s for s in own_nodes(f.node) if isinstance(s, ast.Assign) and src(s.targets[0]) == 'g']
     if g:
-        t = src(g[0].value).replace(' ', '')
+        t = src(resolve.expand(g[0].value, g[0], keep=('p',))).replace(' ', '')
         ctx.decide('R19.4', f.qual, src(g[0]), t == 'np.convolve(self.kv,np.ones(p)/p)[p:-p]' or None, g[0],
                    'running mean of p consecutive knots, windows 1..numdofs')
 
